@@ -476,7 +476,7 @@ def attribute_ts(name, o1, kind, fields, o2=None):
     if not tss:
         return None
     if kind == 'value-drift':
-        if not fields or not set(fields) <= set(k for k, _ in tss):
+        if tss[0][0] != '' and (not fields or not set(fields) <= set(k for k, _ in tss)):
             return None
         t2 = timestamps(o2) if o2 is not None else []
         for i, (k, t) in enumerate(tss):
